@@ -24,11 +24,14 @@ type Op struct {
 	Ent  string `json:"ent,omitempty"` // ent: hex
 	Nil  bool   `json:"nil,omitempty"` // ent: pass a nil slice
 	Cap  int    `json:"cap,omitempty"` // ent: spare capacity behind the slice
-	M    string `json:"m,omitempty"`
-	MX   string `json:"mx,omitempty"` // hex form, used when M is not valid UTF-8
-	P    string `json:"p,omitempty"`
-	PX   string `json:"px,omitempty"`
-	Dev  *Dev   `json:"dev,omitempty"`
+	// ent, concurrent runs only: the slice is a window [:len] into caller buffer number Shared (1-based) that
+	// other goroutines pass at the same time - read-only sharing of input memory is legal for callers
+	Shared int    `json:"shared,omitempty"`
+	M      string `json:"m,omitempty"`
+	MX     string `json:"mx,omitempty"` // hex form, used when M is not valid UTF-8
+	P      string `json:"p,omitempty"`
+	PX     string `json:"px,omitempty"`
+	Dev    *Dev   `json:"dev,omitempty"`
 	// history-only behaviour of the simulated caller
 	Scribble bool `json:"scribble,omitempty"` // overwrite own entropy buffer / returned seed after the call
 }
@@ -56,6 +59,7 @@ func (o *Op) Key() string {
 	c := *o
 	c.Scribble = false
 	c.Cap = 0
+	c.Shared = 0
 	b, _ := json.Marshal(&c)
 	s := sha256.Sum256(b)
 	return hex.EncodeToString(s[:12])
